@@ -4,6 +4,7 @@ import (
 	"bytes"
 	"encoding/binary"
 	"fmt"
+	"strings"
 
 	"github.com/Eyevinn/mp4ff/mp4"
 
@@ -295,7 +296,7 @@ func e1EvalFile(x []byte, p e1Props) (out e1FileOut) {
 	}
 	if eerr != nil {
 		if p.C01 {
-			*fails = append(*fails, e1Fail{"C01", "file re-encode fails", "an accepted file can be re-encoded (box-tree mode)", eerr.Error()})
+			*fails = append(*fails, e1Fail{"C01", "re-encode fails: " + errRoot(eerr), "an accepted file can be re-encoded (box-tree mode)", eerr.Error()})
 		}
 		return out
 	}
@@ -363,6 +364,9 @@ func e1EvalFile(x []byte, p e1Props) (out e1FileOut) {
 		// clause 2: box-tree re-encoding reproduces the input outside the don't-care list
 		if sig, d := c01FileClause2(x, enc, f1); sig != "" {
 			*fails = append(*fails, e1Fail{"C01", "file: " + sig, "re-encoding (box-tree mode) reproduces the input outside the committed don't-care list", d})
+			if len(x) != len(enc) {
+				return out // the positional comparisons below are meaningless
+			}
 		}
 		var f2 *mp4.File
 		if pan := call(func() { f2, err = mp4.DecodeFileSR(bitsSR(enc)) }); pan != "" || err != nil {
@@ -386,7 +390,7 @@ func e1EvalFile(x []byte, p e1Props) (out e1FileOut) {
 			return out
 		}
 		if rerr != nil {
-			*fails = append(*fails, e1Fail{"C03", "file fixed point rejected by reader path", "a file the SliceReader path reproduces exactly is accepted by the io.Reader path", rerr.Error()})
+			*fails = append(*fails, e1Fail{"C03", "file fixed point rejected by reader path: " + errRoot(rerr), "a file the SliceReader path reproduces exactly is accepted by the io.Reader path", rerr.Error()})
 		} else {
 			if a, b := fileShape(f1), fileShape(fr); a != b {
 				*fails = append(*fails, e1Fail{"C03", "file shape differs between decoders", "both paths give the same grouping into init, segments, fragments and start positions", a + " vs " + b})
@@ -401,8 +405,33 @@ func e1EvalFile(x []byte, p e1Props) (out e1FileOut) {
 
 // c01FileClause2 compares a file with its box-tree re-encoding.
 func c01FileClause2(x, enc []byte, f *mp4.File) (string, string) {
+	if trakRegroup(x) {
+		return "", "" // listed order normalisation (moov.trak-regroup)
+	}
 	if len(x) != len(enc) {
-		return "length changed", fmt.Sprintf("input %d bytes, output %d bytes", len(x), len(enc))
+		// which top-level box does the input end in?
+		pos := 0
+		for pos+8 <= len(x) {
+			sz := int(binary.BigEndian.Uint32(x[pos:]))
+			if sz == 1 && pos+16 <= len(x) {
+				sz = int(binary.BigEndian.Uint64(x[pos+8:]))
+			}
+			if sz < 8 {
+				break
+			}
+			if pos+sz > len(x) {
+				if string(x[pos+4:pos+8]) == "mdat" {
+					return "truncated mdat accepted by the SliceReader path and re-encoded shorter", fmt.Sprintf("input %d bytes, output %d bytes", len(x), len(enc))
+				}
+				break
+			}
+			pos += sz
+		}
+		how := "longer"
+		if len(enc) < len(x) {
+			how = "shorter"
+		}
+		return "length changed", fmt.Sprintf("input %d bytes, output %d bytes (%s)", len(x), len(enc), how)
 	}
 	pos := 0
 	for _, b := range f.Children {
@@ -417,7 +446,7 @@ func c01FileClause2(x, enc []byte, f *mp4.File) (string, string) {
 			typ, ver, poff := locate(b, x, pos, i)
 			diff := x[i] ^ enc[i]
 			if m := dontCareMask(typ, ver, poff, x, i); diff&^m != 0 {
-				return fmt.Sprintf("bit lost %s v%d payload+%d mask %02x", typ, ver, poff, diff&^m), fmt.Sprintf("byte %d: input %02x output %02x", i, x[i], enc[i])
+				return bitLostSig(typ, ver, poff), fmt.Sprintf("%s v%d payload+%d mask %02x; byte %d: input %02x output %02x", typ, ver, poff, diff&^m, i, x[i], enc[i])
 			}
 		}
 		pos += sz
@@ -453,6 +482,11 @@ func e1RunFileSeed(idx int, s e1Seed, p e1Props, thorough bool) *e1SeedReport {
 		rep.ByKind[cd.Kind]++
 		out := e1EvalFile(cd.X, p)
 		for _, fl := range out.Fails {
+			if fl.Sig == "file: length changed" && strings.Contains(fl.Extra, "shorter") && (cd.Kind == "relabel" || cd.Kind == "flip" || cd.Kind == "word" || cd.Kind == "size") {
+				// listed normalisation: undeclared trailing bytes of a box are not kept (byte-level deviations only)
+				rep.ByKind["normalised: trailing bytes dropped"]++
+				continue
+			}
 			addFail(fl, cd.Desc, cd.X)
 		}
 		if out.Accepted {
